@@ -5,7 +5,10 @@ package main
 
 import (
 	"bytes"
+	"encoding/json"
 	"fmt"
+	"io"
+	"os"
 	"regexp"
 	"strconv"
 	"strings"
@@ -130,8 +133,12 @@ func ReplayHeap(tw *TraceWriter, id int, ops []HeapOp) {
 func cmdHeap(args []string) {
 	// usage: heap <out.ndjson> <stats.json> <hists.ndjson>... [--random n]
 	tw := NewTraceWriter(args[0])
-	id := 0
 	seen := map[string]bool{}
+	items := []json.RawMessage{}
+	add := func(ops []HeapOp) {
+		b, _ := json.Marshal(ops)
+		items = append(items, b)
+	}
 	for i := 2; i < len(args); i++ {
 		if args[i] == "--random" {
 			i++
@@ -165,8 +172,7 @@ func cmdHeap(args []string) {
 							}
 						}
 					}
-					id++
-					ReplayHeap(tw, id, ops)
+					add(ops)
 					continue
 				}
 				ops := []HeapOp{{Op: "New", K: 1 + r.Intn(4)}}
@@ -188,8 +194,7 @@ func cmdHeap(args []string) {
 						ops = append(ops, HeapOp{Op: "App", C: 1 + r.Intn(ncells), K: 1 + r.Intn(5)})
 					}
 				}
-				id++
-				ReplayHeap(tw, id, ops)
+				add(ops)
 			}
 			continue
 		}
@@ -200,9 +205,26 @@ func cmdHeap(args []string) {
 			seen[string(line)] = true
 			var ops []HeapOp
 			decodeTLCLine(line, &ops)
-			id++
-			ReplayHeap(tw, id, ops)
+			add(ops)
 		})
 	}
+	// the histories are executed by child processes (crash containment, see common.go)
+	runContained(tw, "heap-batch", items, 1, 400)
 	tw.Close(args[1])
+}
+
+func cmdHeapBatch(args []string) {
+	// usage: heap-batch <trace part> <stats part> <first id>   (the histories as a JSON array on stdin)
+	tw := NewTraceWriter(args[0])
+	id, _ := strconv.Atoi(args[2])
+	var hs [][]HeapOp
+	in, _ := io.ReadAll(os.Stdin)
+	if err := json.Unmarshal(in, &hs); err != nil {
+		fatal(err)
+	}
+	for _, ops := range hs {
+		ReplayHeap(tw, id, ops)
+		id++
+	}
+	tw.CloseChild(args[1])
 }
